@@ -41,6 +41,9 @@
 
 /* a second pass over the same cases (sanitizer build) does not count them again */
 static int nocount;
+/* the limits apply to the shifted date only ("the shifted date replaces the unshifted one"): a source outside
+ * DTSTART..UNTIL whose image lies inside must occur.  strict=0 leaves that open */
+static int strict_limits = 1;
 #define NONTRIVIAL()	(nocount ? (void)0 : vd_nontrivial())
 
 static long
@@ -474,7 +477,7 @@ shift_limited(const struct spec_s *sp, int m, int d, bool until)
 		}
 		if (all_out) {
 			src[k].cls = 0;
-		} else if (all_in && src[k].z >= D0 && (!until || src[k].z <= U)) {
+		} else if (all_in && (strict_limits || (src[k].z >= D0 && (!until || src[k].z <= U)))) {
 			src[k].cls = 1;
 		} else {
 			src[k].cls = 2;
@@ -818,6 +821,7 @@ enumerate(void)
 
 	vd_count_cases = 0;
 	nocount = (int)vd_opt_l("nocount", 0);
+	strict_limits = (int)vd_opt_l("strict", 1);
 	if (cvl_selftest() < 0 || cmp_selftest() < 0) {
 		fprintf(stderr, "c17: reference self test failed\n");
 		_exit(3);
